@@ -20,7 +20,10 @@ Inductive leafk :=
 | ChanOp                 (* channel send / receive / range *)
 | Select
 | CondWait
-| WaitGroupWait.
+| WaitGroupWait
+| Sleep                  (* time.Sleep / runtime.Gosched: waiting for time to pass or for somebody else *)
+| SpinLoad.              (* an atomic Load / CompareAndSwap executed from inside a loop (directly, or by a
+                            function called from inside the loop): the loop observes shared state *)
 
 Inductive arg := AConst (b : bool) | AParam (i : nat) | AUnk.
 
@@ -28,7 +31,10 @@ Definition guard := list (nat * bool).
 
 Record edge := mkedge { e_guard : guard; e_callee : N; e_args : list arg }.
 Record leafsite := mkleaf { l_guard : guard; l_leaf : leafk }.
-Record fn := mkfn { f_nslots : nat; f_edges : list edge; f_leaves : list leafsite }.
+(* f_reads / f_writes: the fields of the shared structures (Router, Txn, iTree) and the
+   package-level variables the function reads / writes (ids into GenCallGraph.field_names) *)
+Record fn := mkfn { f_nslots : nat; f_edges : list edge; f_leaves : list leafsite;
+                    f_reads : list N; f_writes : list N }.
 
 (* function ids are positions in the list *)
 Definition graph := list fn.
@@ -151,5 +157,13 @@ Definition lock_of (l : leafk) : list N := match l with Acquire k => [k] | _ => 
 Definition locks_from (g : graph) (es : list state) : option (list N) :=
   match reach g es with
   | Some V => Some (dedupN (flat_map (fun s => flat_map lock_of (leaves_at g s)) V))
+  | None => None
+  end.
+
+(* the shared fields / package variables touched (per `sel`: read or written) by the functions
+   reachable from the entries *)
+Definition fields_from (sel : fn -> list N) (g : graph) (es : list state) : option (list N) :=
+  match reach g es with
+  | Some V => Some (dedupN (flat_map (fun s => match lookup g (fst s) with Some f => sel f | None => [] end) V))
   | None => None
   end.
